@@ -72,18 +72,18 @@ Lemma sim_afterDoctypeNameState : forall m s, R m s -> st m = afterDoctypeNameSt
 Proof.
   intros m s HR Hst Hwk.
   destruct m as [ms mi mc mt mo mcd mb]; destruct s as [ss si sc st' so scd sb];
-  unfold R in HR; cbn [st inp cur tmp out cdata_ok bad] in *;
-  destruct HR as (Hs & Hi & Ht & Ho & Hcd & Hb & Hsb & Hc); subst.
+  unfold R, sst, sinp in HR; cbn [st inp cur tmp out cdata_ok bad] in *;
+  destruct HR as (Hs & Hi & Ht & Ho & Hcd & Hb & Hsb & Hc); subst; cbv beta iota.
   eval_eqb. prep_cur. prep_wk. cbn [ncur] in *. eval_eqb.
-  unfold simok, step_afterDoctypeNameState. cbv beta iota zeta delta [peek]. cbn [inp hd_error].
+  unfold step_afterDoctypeNameState. cbv beta iota zeta delta [peek]. cbn [inp hd_error].
   cbv beta iota zeta delta [advance]. cbn [inp tl].
   assert (Hone : forall (r : tk * bool) s', snd r = true -> bad (fst r) = false -> wk (fst r) = true ->
+             cdata_ok (fst r) = mcd -> covered (fst r) = true ->
              adn_alt (mk_tk afterDoctypeNameState mi (CDoctype name pub sys correct) mt (flatr mo) mcd false) = (s', true) ->
              R (fst r) s' ->
-             bad (fst r) = false /\ wk (fst r) = true /\
-             (if snd r then exists j s', sp_iter j (mk_tk afterDoctypeNameState mi (CDoctype name pub sys correct) mt (flatr mo) mcd false) = Some s' /\ R (fst r) s'
-              else exists s', sp_step (mk_tk afterDoctypeNameState mi (CDoctype name pub sys correct) mt (flatr mo) mcd false) = (s', false) /\ R (fst r) s')).
-  { intros r s' Hs Hb Hw He HR. split; [exact Hb|]. split; [exact Hw|]. rewrite Hs.
+             simok (mk_tk afterDoctypeNameState mi (CDoctype name pub sys correct) mt (flatr mo) mcd false) r).
+  { intros r s' Hs Hb Hw Hcd Hcv He HR. unfold simok. cbn [cdata_ok].
+    split; [exact Hb|]. split; [exact Hw|]. split; [exact Hcd|]. split; [rewrite Hcv; intro Hx; discriminate Hx|]. rewrite Hs.
     exists 1%nat, s'. split; [|exact HR]. cbn [sp_iter]. rewrite sp_adn_eq, He. reflexivity. }
   destruct mi as [|c r]; cbn [hd_error].
   { eapply Hone; try reflexivity. r_solve. }
@@ -100,19 +100,22 @@ Proof.
         adn_alt (mk_tk afterDoctypeNameState (c :: r) (CDoctype name pub sys correct) mt (flatr mo) mcd false)
         = (mk_tk bogusDoctypeState (c :: r) (CDoctype name pub sys false) mt (flatr mo) mcd false, true)) ->
      is_doctype (CDoctype name pub sys correct) = true -> wk (mk_tk stN [] (CDoctype name pub sys correct) mt mo mcd false) = true ->
+     (forall i c t o cd b, sst (mk_tk stN i c t o cd b) = stN) -> (forall i c t o cd b, sinp (mk_tk stN i c t o cd b) = i) ->
+     covered (mk_tk stN [] CNone [] [] false false) = true ->
      cur_dead stN = false -> tstate_eqb stN bogusCommentState = false -> ncur stN (CDoctype name pub sys correct) = CDoctype name pub sys correct ->
      simok (mk_tk afterDoctypeNameState (c :: r) (CDoctype name pub sys correct) mt (flatr mo) mcd false)
        (let (b, r0) := kw_scan w r in
         if b then (set_st stN (mk_tk afterDoctypeNameState r0 (CDoctype name pub sys correct) mt mo mcd false), true)
         else (set_st bogusDoctypeState (set_incorrect (emit (OErr E_expected_space_or_right_bracket_in_doctype)
                  (mk_tk afterDoctypeNameState r0 (CDoctype name pub sys correct) mt mo mcd false))), true))).
-  { intros w stN Hw HS HN _ Hwk2 Hdead Hnb Hnc.
+  { intros w stN Hw HS HN _ Hwk2 Hsst Hsinp Hcvn Hdead Hnb Hnc.
     pose proof (kw_scan_spec w Hw r) as Hk. destruct (kw_scan w r) as [[|] r'].
-    - unfold simok. cbn [fst snd]. m_norm. split; [reflexivity|]. split; [exact Hwk2|].
+    - unfold simok. cbn [fst snd]. m_norm. split; [reflexivity|]. split; [exact Hwk2|]. split; [reflexivity|].
+      split; [unfold covered in *; cbn [st] in *; rewrite Hcvn; intro Hx; discriminate Hx|].
       exists 1%nat. eexists. split; [cbn [sp_iter]; rewrite sp_adn_eq, (HS _ Hk); reflexivity|].
-      unfold R. cbn [st inp cur tmp out cdata_ok bad]. rewrite Hnb, Hdead, Hnc. repeat split; try reflexivity. right; reflexivity.
+      unfold R. rewrite Hsst, Hsinp. cbn [st inp cur tmp out cdata_ok bad]. rewrite Hnb, Hdead, Hnc. repeat split; try reflexivity. right; reflexivity.
     - destruct Hk as (Hn & pre & Hp & Hg).
-      unfold simok. cbn [fst snd]. m_norm. split; [reflexivity|]. split; [reflexivity|].
+      unfold simok. cbn [fst snd]. m_norm. split; [reflexivity|]. split; [reflexivity|]. side2.
       exists (1 + length (c :: pre))%nat. eexists. split.
       + erewrite sp_iter_app; [|cbn [sp_iter]; rewrite sp_adn_eq, (HN Hn); reflexivity].
         rewrite Hp. change (c :: pre ++ r') with ((c :: pre) ++ r'). apply bogus_doctype_skip.
